@@ -73,8 +73,8 @@ def gen_world(rng: random.Random):
         cls = "pLSCF"
         source = "table" if r < 0.6 else "run"
     else:
-        cls = rng.choice(["FDD", "FDD", "EFDD"])
-        source = "run" if (cls == "EFDD" or r < 0.6) else "table"
+        cls = rng.choice(["FDD", "FDD", "EFDD", "FSDD"])
+        source = "run" if (cls in ("EFDD", "FSDD") or r < 0.6) else "table"
     fs = rng.choice([20.0, 50.0, 100.0, 128.0])
     w = {"variant": variant, "cls": cls, "source": source, "fs": fs, "seed": rng.getrandbits(40)}
     if source == "run":
@@ -85,10 +85,10 @@ def gen_world(rng: random.Random):
         elif variant == "pLSCF":
             w.update({"ordmax": rng.randint(4, 8), "nxseg": rng.choice([64, 128]), "permissive": rng.random() < 0.8})
         else:
-            nx = rng.choice([128, 256]) if cls == "EFDD" else rng.choice([64, 128, 256])
+            nx = rng.choice([128, 256]) if cls in ("EFDD", "FSDD") else rng.choice([64, 128, 256])
             w.update({"nxseg": nx, "method_SD": rng.choice(["per", "cor"])})
             df = fs / nx
-            if cls == "EFDD":
+            if cls in ("EFDD", "FSDD"):
                 w["ndat"] = rng.randint(1500, 2500)
                 w["mpe_kw"] = {"DF1": round(rng.uniform(1.2, 3) * df, 6), "DF2": round(rng.uniform(4, 8) * df, 6),
                                "sppk": rng.choice([0, 1, 2]), "npmax": rng.choice([4, 6, 8])}
@@ -667,12 +667,14 @@ class Driver:
 # ---------------------------------------------------------------------------------------------
 # one run
 # ---------------------------------------------------------------------------------------------
-def gen_swarm(rng):
+def gen_swarm(rng, tier="quick"):
     r = rng.random()
     nev = rng.randint(1, 6) if r < 0.2 else rng.randint(5, 14) if r < 0.7 else rng.randint(12, 24)
     W = {"press": rng.choice([3, 5, 8]), "b1": rng.choice([3, 5, 8]), "b3": rng.choice([0.5, 1.5, 3, 5]),
          "b2": rng.choice([0.5, 1.5, 3, 5]), "rel": rng.choice([0.3, 1, 2]), "menu": rng.choice([0.0, 0.5, 1.0]),
          "noise": rng.choice([0.0, 0.5, 1.5])}
+    if tier == "thorough" and rng.random() < 0.2:
+        nev = rng.randint(20, 40)
     faulty = rng.random() < 0.5
     plan = None
     if rng.random() < 0.4:
@@ -692,7 +694,7 @@ def run_case(seed, tier="quick", case=None, known=()):
     rng = random.Random(seed)
     if case is None:
         w = gen_world(rng)
-        swarm = gen_swarm(rng)
+        swarm = gen_swarm(rng, tier)
         ops_in = None
     else:
         w = copy.deepcopy(case["world"])
